@@ -201,11 +201,12 @@ PROPS["C04"] = {
     "level": "exploration",
     "runs": [run("TestC04", (1500, 6), (50000, 16))],
     "rule": "cases = rule sets and requests from the C01 (matching) and C09 (scoring) generators, biased to many values under few names, "
-            "several rules sharing transformation prefixes over one collection, optional SecArgumentsLimit below the number of arguments; "
+            "several rules sharing transformation prefixes over one collection, rules comparing against %{COLLECTION.key} (the first value "
+            "stored under a repeated or case-variant name), optional SecArgumentsLimit below the number of arguments; "
             "each case is executed 12 times (6 fresh WAFs, 6 consecutive transactions on one WAF) and the canonical outcomes (interruption, "
             "ordered fired ids, per-rule multiset of triples, TX map, HIGHEST_SEVERITY) must be identical; the runtime's map iteration order "
             "is the adversary; non-trivial = >=2 rules fire, >=1 transformation and a collection with >=3 entries and a repeated name",
-    "essential": {"all": ["kind:matching", "kind:scoring", ">=3-entries-with-repeated-name", "argument-count-above-limit", "interrupted"]},
+    "essential": {"all": ["kind:matching", "kind:scoring", ">=3-entries-with-repeated-name", "argument-count-above-limit", "interrupted", "first-value-readers"]},
     "assumptions": COMMON_ASSUME + [
         "a divergence that occurs with probability p per run survives 12 repetitions with probability (1-p)^12",
         "order-sensitive effects (assigning %{MATCHED_VAR} over several matches) are not generated",
@@ -302,7 +303,7 @@ PROPS["C03"] = {
             "limit below the size, or unparseable input",
     "essential": {"all": ["carrier:query", "carrier:urlencoded", "carrier:headers", "carrier:cookies", "carrier:multipart", "carrier:json", "carrier:xml",
                           "dup-or-case-variant-name", "empty-name-or-value", "delimiter-byte-in-data", "body-limit-below-size:Reject",
-                          "body-limit-below-size:ProcessPartial", "unparseable:json", "multipart-files", "error-flagged"]},
+                          "body-limit-below-size:ProcessPartial", "unparseable:json", "multipart-files", "error-flagged", "content-type-with-parameter"]},
     "assumptions": COMMON_ASSUME + [
         "only data encodable in the carrier is generated (cookie names/values without ';' and surrounding blanks, multipart names without CR/LF/quote, control and non-ASCII bytes always percent-encoded in the request line)",
         "three known findings are excluded by construction while their witnesses still fail (arguments over the limit, colliding JSON keys, multipart without closing boundary)",
